@@ -73,6 +73,9 @@ struct Case {
     /// orphan.  With false (default) every count-word access is a switch point.
     #[serde(default)]
     atomic_ops: bool,
+    /// threads that never register a merge queue (plain std::thread users of BiasedRc)
+    #[serde(default)]
+    unregistered: Vec<bool>,
 }
 
 #[derive(Debug, serde::Serialize, Default)]
@@ -253,9 +256,11 @@ impl World {
     }
 }
 
-fn run_thread(me: usize, ops: Vec<Op>, world: Arc<World>, sched: Arc<Sched>, init: Vec<BiasedRc<P>>, atomic_ops: bool) {
+fn run_thread(me: usize, ops: Vec<Op>, world: Arc<World>, sched: Arc<Sched>, init: Vec<BiasedRc<P>>, atomic_ops: bool, registered: bool) {
     MY_INDEX.with(|c| c.set(me));
-    QueueHandle::register_thread();
+    if registered {
+        QueueHandle::register_thread();
+    }
     let mut handles: Vec<BiasedRc<P>> = init;
     sched.yield_now(me);
     for op in ops {
@@ -474,9 +479,11 @@ fn run_thread(me: usize, ops: Vec<Op>, world: Arc<World>, sched: Arc<Sched>, ini
             }
         }
     }
-    IN_MERGE.with(|c| c.set(true));
-    QueueHandle::finish_thread_merge();
-    IN_MERGE.with(|c| c.set(false));
+    if registered {
+        IN_MERGE.with(|c| c.set(true));
+        QueueHandle::finish_thread_merge();
+        IN_MERGE.with(|c| c.set(false));
+    }
     world.check_invariants(&format!("thread {} exit merge", me));
     sched.finish(me);
 }
@@ -539,10 +546,13 @@ fn run_once(case: &Case, schedule: &[u8]) -> Outcome {
         let sched = sched.clone();
         let tx = tx.clone();
         let atomic = case.atomic_ops;
+        let registered = !case.unregistered.get(t).copied().unwrap_or(false);
         joins.push(std::thread::spawn(move || {
             MY_INDEX.with(|c| c.set(usize::MAX)); // not scheduled while creating
             let init: Vec<BiasedRc<P>> = if t == 0 {
-                QueueHandle::register_thread();
+                if registered {
+                    QueueHandle::register_thread();
+                }
                 (0..nobj)
                     .map(|_| {
                         let id = NEXT_OBJ.fetch_add(1, Ordering::SeqCst);
@@ -555,7 +565,7 @@ fn run_once(case: &Case, schedule: &[u8]) -> Outcome {
                 vec![]
             };
             tx.send(()).unwrap();
-            run_thread(t, ops, world, sched, init, atomic);
+            run_thread(t, ops, world, sched, init, atomic, registered);
         }));
     }
     for _ in 0..nthreads {
